@@ -11,6 +11,8 @@ concrete schedules.  What is proved for all schedules is the statement under the
 (`Model.lean`), which names exactly the windows in which the handshake is unsound.
 -/
 import SteelVerif.C15.StepE
+import SteelVerif.C15.PropsR
+import SteelVerif.C15.LitmusR
 namespace SteelVerif.C15
 
 /-- Every guarded step of the transition system preserves the invariant. -/
@@ -357,14 +359,52 @@ example (s' : State) (hs : step (runG init (goodRound ++ List.replicate 14 (0, .
     (hend : s'.stopper = none) : s'.envOk = true :=
   env_published_partial _ 0 s' (by decide) hs (by decide) hend
 
+/-! ## The repaired handshake: both statements at full strength
+
+`ModelR.lean` is the model of the code with the proposed repairs applied (K15a: every safepoint exit retracts and
+then re-checks the stop request — `/verif/.build/C15/proposed-fix-K15a.diff`; K15b: `spawn-native-thread` holds the
+heap lock from before it clones its state until the child is registered — `proposed-fix-K15b.diff`; K17a/K17c: the
+controller is one word of request bits, every operation one atomic read-modify-write, the exit loops wait on STOP
+only — design in `ModelR.lean`, patch not written; `R.interrupt_not_lost`, `R.poll_delivers`).  For that model the invariant (`LemmasR.lean`) is preserved by
+EVERY step (`R.step_inv`, no guard), so the two C15 statements hold for every number of threads and every schedule,
+including host interrupts / resumes on any controller and spawns at any time. -/
+
+/-- **C15 (scan), full strength, repaired handshake.** -/
+theorem scan_exclusive_repaired (sched : List (R.Tid × R.Act)) : (R.run R.init sched).scanOk = true :=
+  R.scan_exclusive sched
+
+/-- **C15 (global table), full strength, repaired handshake.** -/
+theorem env_coherent_repaired (sched : List (R.Tid × R.Act)) :
+    (R.run R.init sched).noRound = true → (R.run R.init sched).envOk = true :=
+  R.env_coherent sched
+
+/-- The K15a / K15b interleavings on the repaired model (by evaluation): the leaving thread re-checks, sees the
+request and publishes itself again while it is being scanned; the spawn waits for the round and the child inherits
+the new table. -/
+example : ((R.run R.init R.exitRaceR).th 1).pc = .parking .prim ∧ ((R.run R.init R.exitRaceR).th 1).scanned = 1 := by
+  decide
+
 /-! ## Clauses of the property not carried by a theorem
 
-* "for every interleaving of the stop request with a thread's entry to and exit from a safepoint": only the
-  interleavings that respect `G`.  Excluded — and the full statement is FALSE there — are: a stop request
-  reaching a thread between its last exit check and its retraction (`not_scan_exclusive`, K15a); a thread
-  spawned, or a host `interrupt()` issued or in flight, during a round (`not_env_coherent`, K15b).  Overlapping
-  rounds are excluded by `G` as well; for the current code (`State.fix`) that clause is implied by the heap lock:
-  `C16.scan_exclusive_fixed` / `C16.env_coherent_fixed` state the two theorems under the weaker guard `GFix`.
+* THE CODE AS IT IS: "for every interleaving of the stop request with a thread's entry to and exit from a
+  safepoint" holds only for the interleavings that respect `G`.  Excluded — and the full statement is FALSE there —
+  are: a stop request reaching a thread between its last exit check and its retraction (`not_scan_exclusive`, K15a);
+  a thread spawned, or a host `interrupt()` issued or in flight, during a round (`not_env_coherent`, K15b).
+  Overlapping rounds are excluded by `G` as well; for the current code (`State.fix`) that clause is implied by the
+  heap lock (`C16.scan_exclusive_fixed` / `C16.env_coherent_fixed`, guard `GFix`).
+  THE REPAIRED HANDSHAKE (`scan_exclusive_repaired`, `env_coherent_repaired`): no interleaving is excluded.  What
+  ties `ModelR` to code is (a) the patches K15a/K15b, run under the forced schedules of the witnesses in a scratch
+  tree (evidence in the builder's report; the coordinator applies them), (b) for the controller redesign nothing yet.
+* Relaxed atomics.  Both models are sequentially consistent.  The ONE place where that matters for the repaired
+  handshake is the Dekker pair  [stopper: `paused.store(true)` … `ctx.load()`]  vs  [thread: `ctx.store(None)` …
+  `paused.load()`]: with a store buffer on either side (x86 allows store→load reordering; the code's
+  `paused` accesses are `Relaxed` and `AtomicCell` stores are `Release`) both loads can miss the other side's
+  store, i.e. the thread reads "not stopped" and the stopper reads "published".  `R.Litmus` (below, `LitmusR.lean`)
+  states it: with a one-slot store buffer for the two stores the bad outcome is reachable (`sb_buffered_bad`),
+  with a fence between each store and the following load it is not (`sb_fenced_safe`, all interleavings).  The
+  K15a patch therefore adds `fence(SeqCst)` after `ctx.store(None)` and at the end of `stop_threads` and makes the
+  `paused` loads of the exit paths `SeqCst`.  For the code as it is a delayed `paused` store only widens the window
+  `G` already excludes.
 * "resumes with state consistent with the operation's result": only the VERSION of the global table a thread
   holds (`env`) is modelled; a collection changes nothing in the model.  That the table with that version
   contains the completed definition, that a thread's stack, open upvalues and JIT frames are what the collector
@@ -377,8 +417,9 @@ example (s' : State) (hs : step (runG init (goodRound ++ List.replicate 14 (0, .
 * "2..8 script threads running arbitrary mixes of computation, allocation …": any number of threads, but the
   computation between shared accesses is not modelled (a thread at `run` owns its stack; the hook of the real
   engine asserts that no instruction is dispatched while the thread is being scanned).
-* Relaxed atomics (the model is sequentially consistent), the raw pointer's validity after a thread exits
-  (`done` threads are skipped by pc, not by a dangling `ctx`).
-`goodRound_*`, `primRound_*` are TESTS of the model on two schedules (by `decide`), not general claims. -/
+* The raw pointer's validity after a thread exits (`done` threads are skipped by pc, not by a dangling `ctx`);
+  `thread-suspend!` (SUSPEND bit / `Suspended` state) is in neither model.
+`goodRound_*`, `primRound_*`, `R.exitRaceR_*`, `R.lateRegistrationR_*` are TESTS of the models on schedules (by
+`decide`), not general claims. -/
 
 end SteelVerif.C15
